@@ -25,6 +25,7 @@ class Profile:
         self.p_internal = 0.15
         self.p_action = 0.6
         self.p_send = 0.35
+        self.p_notify = 0.1            # share of notify(...) among the sending statements
         self.p_contract = 0.3
         self.p_entry_code = 0.4
         self.p_time_guard = 0.1
@@ -89,7 +90,7 @@ class Gen:
                     parts.append("send('%s', delay=%d)" % (ev, self.rng.choice([1, 2, 3, 5])))
                 elif k < 0.45:
                     parts.append("send('%s', v=x)" % ev)
-                elif k < 0.55:
+                elif k < 0.45 + self.p.p_notify:
                     parts.append("notify('m%d', w=y)" % self.rng.randint(0, 1))
                 else:
                     parts.append("send('%s')" % ev)
